@@ -1,5 +1,5 @@
-(* C19 model: pgmpy/estimators/CITests.py as coded (after fix 772ab0d: pearsonr regresses on
-   [1 Z]).  Executable definitions only, no proofs.
+(* C19 model: pgmpy/estimators/CITests.py as coded (after the fix: commits 772ab0d: pearsonr regresses
+   on [1 Z]; 2462e22: pooled dof 0 gives p-value 1; 50eed3a: the documented name 'freeman-tuckey' is accepted).  Executable definitions only, no proofs.
 
    Data frame = list of rows; a row = list of state indices (one per column); a column is either an
    integer column (kind None: its levels are the values observed) or a pandas Categorical
@@ -11,7 +11,7 @@
               declared categories and an integer column its observed values
      Z != []  for every OBSERVED configuration of Z (groupby(Z, observed=True)): np.unique of X and of Y
               inside the stratum, bincount table, skip rule (a zero row or column margin),
-              chi += c; dof += d;  p = 1 - chi2.cdf(chi, dof)
+              chi += c; dof += d;  p = 1 - chi2.cdf(chi, dof) if dof > 0 else 1.0   (fix 2462e22)
    scipy.stats.chi2_contingency (correction=True is the default and pgmpy never passes it):
      expected = outer(row sums, column sums)/n; ValueError when an expected count is 0;
      dof = (R-1)(C-1); dof = 0 -> (0.0, 1.0); dof = 1 -> Yates-adjusted observed counts;
@@ -117,7 +117,8 @@ Definition stratum_step (X Y : nat) (acc : cc_result) (df : list row) : cc_resul
 Definition ci_cond (lam : Qc) (rows : list row) (X Y : nat) (Z : list nat) : ci_result :=
   match fold_left (stratum_step X Y) (strata Z rows) (CCok [] 0) with
   | CCerr c => CIerr c
-  | CCok cells dof => let s := mk_stat lam cells in CIok s dof (P1mCDF s dof)
+  | CCok cells dof =>
+      let s := mk_stat lam cells in CIok s dof (if dof =? 0 then POne else P1mCDF s dof)
   end.
 
 Definition power_divergence (lam : Qc) (kinds : list (option nat)) (rows : list row)
@@ -132,8 +133,10 @@ Definition power_divergence (lam : Qc) (kinds : list (option nat)) (rows : list 
        end.
 
 (* ---------------------------------------------------------------- lambda_ and the named wrappers *)
-(* scipy.stats._stats_py._power_div_lambda_names *)
-Inductive lname := LPearson | LLogLik | LFreemanTukey | LModLogLik | LNeyman | LCressieRead.
+(* scipy.stats._stats_py._power_div_lambda_names, plus the spelling 'freeman-tuckey' of pgmpy's
+   docstring, which power_divergence rewrites to scipy's 'freeman-tukey' *)
+Inductive lname := LPearson | LLogLik | LFreemanTukey | LModLogLik | LNeyman | LCressieRead
+                 | LFreemanTuckeyDoc.
 Definition lambda_of_name (n : lname) : Qc :=
   match n with
   | LPearson => 1%Qc
@@ -142,6 +145,7 @@ Definition lambda_of_name (n : lname) : Qc :=
   | LModLogLik => Q2Qc (-1 # 1)
   | LNeyman => Q2Qc (-2 # 1)
   | LCressieRead => Q2Qc (2 # 3)
+  | LFreemanTuckeyDoc => Q2Qc (-1 # 2)
   end.
 (* the lambda_ argument: None (scipy: Pearson), a name, or a number *)
 Inductive larg := LNone | LName (n : lname) | LNum (q : Qc).
